@@ -52,6 +52,9 @@ int __wrap_fseek(FILE *f, long o, int w) { return __real_fseek(f, o, w); }
 int __wrap_fflush(FILE *f) { return __real_fflush(f); }
 int __wrap_fclose(FILE *f) { return __real_fclose(f); }
 long __wrap_ftell(FILE *f) { return __real_ftell(f); }
+int __real_ferror(FILE *); void __real_clearerr(FILE *);
+int __wrap_ferror(FILE *f) { return __real_ferror(f); }
+void __wrap_clearerr(FILE *f) { __real_clearerr(f); }
 size_t __wrap_fwrite(const void *b, size_t s, size_t n, FILE *f)
 {
     if (s * n == 1 && f != stdout && f != stderr && stack_top && (const char *)b < stack_top && (const char *)b > stack_top - (8L << 20)) {
